@@ -93,7 +93,7 @@ StepNotes(e, s, t) ==
     \cup (IF e.ev = "end_block" /\ PEnabled(s.params, s.height) /\ ~EndBlockInDomain(s, e.args.used)
              /\ ~BigEq(t.bgw, PGasFigure(s.tgw, s.params.minGasMultiplier, e.args.used))
           THEN {Note("end_block-keeps-stale-figure", "gas>int64", e)} ELSE {})
-    \cup (IF e.ev \in Boundaries /\ ~e.ok THEN {Note("failed:" \o e.ev, StepClass(e, s), e)} ELSE {})
+    \cup (IF e.ev \in Boundaries \cup Upgrades /\ ~e.ok THEN {Note("failed:" \o e.ev, StepClass(e, s), e)} ELSE {})
     \cup (IF e.ev = "ante" /\ e.ok /\ PEnabled(s.params, s.height) /\ ~BigEq(t.tgw, BigAdd(s.tgw, e.args.gas))
           THEN {Note("transient-gas-wanted-wraps-uint64", "gas>int64", e)} ELSE {})
 
